@@ -79,6 +79,9 @@ def denorm_p(op, p, ver):
             obj["dtype"] = o["sub"]
         elif o["type"] == "OpaqueData":
             obj["odtype"] = o["sub"]
+        elif o["type"] == "SplitKey" and o["sub"] != "NA":
+            obj["prime"] = A.BIG_PRIME if o["sub"] == "PRIME_BIG" else A.SMALL_PRIME
+            obj["smethod"] = "POLYNOMIAL_SHARING_PRIME_FIELD"
         return {"otype": p["otype"], "attrs": [denorm_attr(a) for a in p["attrs"]],
                 "obj": obj if p.get("hasobj", True) else None}
     if op == "Locate":
@@ -359,6 +362,10 @@ def _sig_for(tr, v):
             sig["idx"] = it["p"]["idx"]
         if it["op"] == "Locate":
             sig["filters"] = sorted(set(f["name"] for f in it["p"]["filters"]))
+        if it["op"] in ("Create", "Register") and "otype" in it["p"]:
+            sig["otype"] = it["p"]["otype"]
+            if it["op"] == "Register" and isinstance(it["p"].get("obj"), dict):
+                sig["sub"] = it["p"]["obj"].get("sub")
     elif "req" in s:
         sig["op"] = "+".join(it["op"] for it in s["req"]["items"])[:80]
         sig["kind"] = s["res"]["kind"]
